@@ -586,6 +586,9 @@ def do_codegen(codegen, *mvs) -> CodegenOutput:
     if isinstance(res, CodegenOutput):
         return res
 
+    if not isinstance(res, (dict, LambdifyInput)) and not hasattr(res, 'keys'):
+        res = {0: res}  # A plain coefficient is a scalar.
+
     if isinstance(res, LambdifyInput):
         funcname = res.funcname
         args = res.args
